@@ -119,7 +119,7 @@ pub fn rle_32_decompress(input: &[u8], width: u32, height: u32, output: &mut [u8
 	}
 
 	// the four planes are written into a buffer of width * height pixels
-	if output.len() < width as usize * height as usize * 4 {
+	if (output.len() as u128) < width as u128 * height as u128 * 4 {
 		return Err(Error::RdpError(RdpError::new(RdpErrorKind::InvalidSize, "Output buffer too small")))
 	}
 
